@@ -117,6 +117,17 @@ func (rt *ROATable) getBucket(roa *ROA) *roaBucket {
 }
 
 func (rt *ROATable) Add(roa *ROA) {
+	if roa.Family == bgp.AFI_IP6 && roa.Network.IP.To4() != nil {
+		// critbitgo keeps an IPv4-mapped IPv6 prefix under an IPv4 key,
+		// which the lookups with IPv6 keys in Validate can't handle
+		rt.logger.Warn("Ignore a ROA for an IPv4-mapped IPv6 prefix",
+			slog.String("Topic", "rpki"),
+			slog.String("Network", roa.Network.String()),
+			slog.Int("MaxLen", int(roa.MaxLen)),
+			slog.Uint64("AS", uint64(roa.AS)),
+			slog.String("Src", roa.Src))
+		return
+	}
 	b := rt.getBucket(roa)
 	for _, r := range b.entries {
 		if r.Equal(roa) {
